@@ -129,7 +129,9 @@ def run(module, cfg=None, *, workers=1, env=None, simulate=None, depth=None, see
         cfg = os.path.join(meta, 'generated.cfg')
         with open(cfg, 'w') as f:
             f.write(cfg_text)
-    cmd = ['java', '-XX:+UseParallelGC', '-Xmx' + heap, '-Xss64m', *jvm, '-cp', JAR, 'tlc2.TLC',
+    jtmp = os.path.join(meta, 'jtmp')   # TLC creates a tlc-<n> directory in java.io.tmpdir and leaves it behind: keep it in the scratch directory
+    os.makedirs(jtmp, exist_ok=True)
+    cmd = ['java', '-XX:+UseParallelGC', '-Xmx' + heap, '-Xss64m', '-Djava.io.tmpdir=' + jtmp, *jvm, '-cp', JAR, 'tlc2.TLC',
            '-workers', str(workers), '-metadir', os.path.join(meta, 'states'), '-noGenerateSpecTE', '-config', cfg]
     if not deadlock:
         cmd.append('-deadlock')   # -deadlock DISABLES deadlock checking
